@@ -197,9 +197,9 @@ func (u *Universe) funcValues(v ssa.Value, interproc bool, seen map[ssa.Value]bo
 	case *ssa.Call:
 		// a function returning a function (e.g. an option constructor)
 		if callee := u.StaticCallee(x); callee != nil && len(callee.Blocks) > 0 {
-			for _, r := range Returns(callee) {
+			for _, r := range NormalReturns(callee) {
 				if len(r.Results) >= 1 {
-					out = add(out, u.funcValues(r.Results[0], interproc, seen)...)
+					out = add(out, u.funcValues(ReturnResult(r, 0), interproc, seen)...)
 				}
 			}
 		}
